@@ -15,6 +15,8 @@ package ref
 //     the Name of a stack config of its program and X <= its Rate.
 
 import (
+	"math"
+	"math/big"
 	"sort"
 	"strings"
 
@@ -140,7 +142,7 @@ func ExpectedUpload(cfg *telemetry.UploadConfig, x float64, files []LocalFile) (
 		stack bool
 		name  string
 	}
-	sums := map[key]int64{}
+	sums := map[key]*big.Int{} // exact; reported saturated at the largest int64
 	approvedBuilds = map[Build]bool{}
 	for _, f := range files {
 		// C01's statement names path, version and Go version; the configuration's GOOS and GOARCH lists
@@ -161,12 +163,16 @@ func ExpectedUpload(cfg *telemetry.UploadConfig, x float64, files []LocalFile) (
 			if !ok || x > rate {
 				continue
 			}
-			sums[key{f.Build, stack, name}] += int64(v)
+			k := key{f.Build, stack, name}
+			if sums[k] == nil {
+				sums[k] = new(big.Int)
+			}
+			sums[k].Add(sums[k], new(big.Int).SetUint64(v))
 		}
 	}
 	triples = map[Triple]bool{}
 	for k, v := range sums {
-		triples[Triple{k.b, k.stack, k.name, v}] = true
+		triples[Triple{k.b, k.stack, k.name, saturate(v)}] = true
 	}
 	return triples, approvedBuilds
 }
@@ -244,17 +250,30 @@ func SumFiles(files []LocalFile) map[Triple]bool {
 		b    Build
 		name string
 	}
-	sums := map[key]int64{}
+	// exact sums; a report's values are int64, and a sum beyond that range is reported as the largest int64
+	sums := map[key]*big.Int{}
 	for _, f := range files {
 		for n, v := range f.Counts {
 			// names become JSON object keys in a report: bytes that are not valid UTF-8 are written as
 			// U+FFFD there, and names that become equal that way are one counter of the report
-			sums[key{f.Build, strings.ToValidUTF8(n, "\uFFFD")}] += int64(v)
+			k := key{f.Build, strings.ToValidUTF8(n, "\uFFFD")}
+			if sums[k] == nil {
+				sums[k] = new(big.Int)
+			}
+			sums[k].Add(sums[k], new(big.Int).SetUint64(v))
 		}
 	}
 	out := map[Triple]bool{}
 	for k, v := range sums {
-		out[Triple{k.b, strings.Contains(k.name, "\n"), k.name, v}] = true
+		out[Triple{k.b, strings.Contains(k.name, "\n"), k.name, saturate(v)}] = true
 	}
 	return out
+}
+
+// saturate is the value a report carries for an exact sum: the sum, or the largest int64 beyond that.
+func saturate(v *big.Int) int64 {
+	if v.IsInt64() {
+		return v.Int64()
+	}
+	return math.MaxInt64
 }
